@@ -149,6 +149,15 @@ def check_case(case):
     d = "M %r,%r A %r %r %r %d %d %r,%r" % (sx, sy, rxf, ryf, rot, fa, fs, ex, ey)
     routes.append(("Path(%r)[1]" % d, lambda: svg.Path(d)[1]))
     drel = "M %r,%r a %r,%r,%r,%d,%d,%r,%r" % (sx, sy, rxf, ryf, rot, fa, fs, ex - sx, ey - sy)
+
+    def builder_second_arc():
+        # the builder call takes several arcs at once: this arc is the SECOND of one call, it starts where the first ends
+        size = max(abs(sx), abs(sy), abs(ex), abs(ey), rxf, ryf, 1e-3)
+        p = svg.Path()
+        p.move(svg.Point(sx - 3 * size, sy + 2 * size))
+        p.arc(4 * size, 4 * size, 0, 0, 1, svg.Point(sx, sy), rxf, ryf, rot, fa, fs, svg.Point(ex, ey))
+        return p[2]
+    routes.append(("Path.arc(first arc, %r %r %r %d %d %r)[second]" % (rxf, ryf, rot, fa, fs, (ex, ey)), builder_second_arc))
     for what, mk in routes:
         if mk is None:
             continue
